@@ -275,7 +275,7 @@ class LoopMixin:
 
         results = []
         work = [[]]
-        guard = z3.And(g >= 0, g < hi, seg.cond)
+        guard = z3.And(g >= 0, g < hi, seg.cond, *[z3.And(fg >= 0, fg < fhi, fc) for (_fl, _fp, fhi, fg, fc) in seg.outer])
         try:
             while work:
                 prefix = work.pop()
@@ -335,6 +335,8 @@ class LoopMixin:
         def gen(t):
             return z3.substitute(t, *self._skolem) if self._skolem else t
 
+        if exits and seg.outer:
+            raise Unsupported("early exit from a loop over a nested comprehension")
         if exits:
             ex_cond = gen(z3.Or(*[r["cond"] for r in exits]))
             n_ex = self.ops.count(seg.lid, seg.pidx, hi, g, z3.And(seg.cond, ex_cond))
@@ -388,12 +390,24 @@ class LoopMixin:
         if isinstance(v, (SList, SSet)):
             if v.lid in self.st.lists:
                 return v
+            if ("list", v.lid) in memo:
+                return type(v)(memo[("list", v.lid)], v.idx)
             src = src_st.lists[v.lid]
             if src.kind == "conc":
                 lid = self.st.new_id()
                 self.st.lists[lid] = ListRec("conc", items=[self._import_value(i, src_st, g, memo) for i in src.items])
                 return type(v)(lid)
-            raise Unsupported("symbolic list created inside a summarised loop body escapes the loop")
+            if src.kind == "base":
+                # a symbolic list created by the body for the generic iteration (e.g. the tasks of a row loaded there):
+                # its arrays stand for one arbitrary iteration
+                lid = self.st.new_id()
+                memo[("list", v.lid)] = lid
+                nrec = copy.deepcopy(src)
+                nrec.meta["generic_over"] = g
+                nrec.write_log, nrec.read_log = [], []
+                self.st.lists[lid] = nrec
+                return type(v)(lid, v.idx)
+            raise Unsupported("derived list created inside a summarised loop body escapes the loop")
         if isinstance(v, SDict):
             if v.did in self.st.dicts:
                 return v
@@ -475,14 +489,30 @@ class LoopMixin:
                     continue
                 base = st.lists[lid]
                 if rec.kind in ("conc", "derived") and base.kind in ("conc", "derived"):
-                    ops = [w for w in rec.write_log if w[0] == "$append"]
-                    other = [w for w in rec.write_log if w[0].startswith("$") and w[0] != "$append"]
+                    other = [w for w in rec.write_log if w[0].startswith("$") and w[0] not in ("$append", "$segs", "$extend")]
                     if other:
                         raise Unsupported(f"list mutation {other[0][0]} inside a summarised loop")
-                    if len(ops) > 1:
-                        raise Unsupported("more than one append to the same list per iteration")
-                    if ops:
-                        appends.setdefault(lid, []).append((c, self._import_value(ops[0][1], st2, g)))
+                    if rec.write_log:
+                        n0 = len(self.ops.segments(SList(lid)))  # entries present before the loop (in the outer state)
+                        cur_segs = rec.segs if rec.kind == "derived" else [("conc", list(rec.items))]
+                        base_segs = base.segs if base.kind == "derived" else [("conc", list(base.items))]
+                        new_entries = []
+                        if rec.kind == "conc":
+                            new_entries = [("conc", [x]) for x in rec.items[len(base.items):]] if base.kind == "conc" else []
+                        else:
+                            flat_base = sum((len(x[1]) if isinstance(x, tuple) else 1) for x in base_segs)
+                            seen = 0
+                            for x in cur_segs:
+                                if isinstance(x, tuple):
+                                    for it in x[1]:
+                                        if seen >= flat_base:
+                                            new_entries.append(("conc", [it]))
+                                        seen += 1
+                                else:
+                                    if seen >= flat_base:
+                                        new_entries.append(x)
+                                    seen += 1
+                        appends.setdefault(lid, []).append((c, new_entries, st2))
                 elif rec.kind == "base":
                     if rec.write_log and lid not in family:
                         raise Unsupported("summarised loop writes elements of an unrelated list")
@@ -538,16 +568,41 @@ class LoopMixin:
                     carried_writes.setdefault(n, []).append((c, "set", self._import_value(v, st2, g)))
         # ---- apply: appended lists
         for lid, lst in appends.items():
-            cond = z3.Or(*[c for c, _ in lst])
-            val = lst[-1][1]
-            for c, v in reversed(lst[:-1]):
-                val = self.ops.ite(c, v, val)
             rec = st.lists[lid]
             handle = SList(lid)
             cur = self.ops.segments(handle)
+            simple = not seg.outer and all(len(ne) <= 1 and all(isinstance(x, tuple) for x in ne) for _c, ne, _s in lst)
             rec.kind, rec.items = "derived", []
-            rec.segs = cur + [Seg(seg.lid, seg.pidx, hi2, g, z3.And(seg.cond, cond), val)]
+            if simple:
+                # at most one plain append per iteration: one order-preserving segment
+                lst1 = [(c, self._import_value(ne[0][1][0], s2, g)) for c, ne, s2 in lst if ne]
+                if lst1:
+                    cond = z3.Or(*[c for c, _ in lst1])
+                    val = lst1[-1][1]
+                    for c, v in reversed(lst1[:-1]):
+                        val = self.ops.ite(c, v, val)
+                    rec.segs = cur + [Seg(seg.lid, seg.pidx, hi2, g, z3.And(seg.cond, cond), val)]
+                else:
+                    rec.segs = cur
+            else:
+                # several appends and/or inner comprehensions per iteration: one segment per entry; relative order of
+                # entries from different iterations is not represented (membership / length / iteration only)
+                new = []
+                for c, ne, s2 in lst:
+                    for x in ne:
+                        if isinstance(x, tuple):
+                            new.append(Seg(seg.lid, seg.pidx, hi2, g, z3.And(seg.cond, c), self._import_value(x[1][0], s2, g), tuple(seg.outer)))
+                        else:
+                            memo: dict = {}
+                            ilist = self._import_value(SList(x.lid, tuple(x.pidx)), s2, g, memo) if x.lid >= 0 else None
+                            frame = (seg.lid, seg.pidx, hi2, g, z3.And(seg.cond, c))
+                            new.append(Seg(ilist.lid if ilist is not None else x.lid, tuple(self._gen(t) for t in x.pidx), self._gen(x.hi), x.g,
+                                           self._gen(x.cond), self._import_value(x.mapv, s2, g, memo), tuple(seg.outer) + (frame,) + tuple(x.outer)))
+                rec.segs = cur + new
+                rec.meta["unordered"] = True
             rec.write_log.append(("$segs", None))  # seen by an enclosing summarised loop: nested accumulation
+        if seg.outer and (field_writes or carried_writes or obj_writes):
+            raise Unsupported("state update inside a loop over a nested comprehension")
         # ---- apply: element fields (lambda update at the level of g)
         for (lid, key), lst in field_writes.items():
             rec = st.lists[lid]
@@ -606,9 +661,25 @@ class LoopMixin:
             if r["effects"]:
                 c = gen(r["cond"])
                 effs = []
+                memo: dict = {}
+
+                def imp(x, _st=r["st"]):
+                    if isinstance(x, V):
+                        return self._import_value(x, _st, g, memo)
+                    if isinstance(x, dict):
+                        return {k2: imp(v2) for k2, v2 in x.items()}
+                    if isinstance(x, (list, tuple)):
+                        return type(x)(imp(v2) for v2 in x)
+                    if isinstance(x, z3.ExprRef):
+                        return self._gen(x)
+                    if isinstance(x, Effect):
+                        return Effect(x.kind, imp(x.data))
+                    return x
+
                 for e in r["effects"]:
-                    effs.append(Effect(e.kind, {k: (self._import_value(v, r["st"], g) if isinstance(v, V) else v) for k, v in e.data.items()}))
-                st.effects.append(Effect("foreach", dict(lid=seg.lid, pidx=seg.pidx, hi=hi2, g=g, cond=z3.And(seg.cond, c), body=effs)))
+                    effs.append(Effect(e.kind, imp(e.data)))
+                st.effects.append(Effect("foreach", dict(lid=seg.lid, pidx=seg.pidx, hi=hi2, g=g, cond=z3.And(seg.cond, c), body=effs,
+                                                         outer=tuple(seg.outer))))
         # assumptions / notes propagate (shared sets)
 
     def _pristine(self, arr):
